@@ -37,6 +37,15 @@ Proof.
   eapply IH; [|exact E]. eapply step_inv; eassumption.
 Qed.
 
+Lemma init_queue F1 F2 l :
+  (forall t, In t l -> find_f (t_id t) F1 = Some t /\ find_f (t_id t) F2 = Some t) ->
+  Forall2 (fun q tq => find_f q F1 = Some tq /\ find_f q F2 = Some tq) (map t_id l) l.
+Proof.
+  induction l as [|t r IH]; simpl; intro H; constructor.
+  - apply H. left; reflexivity.
+  - apply IH. intros; apply H; right; assumption.
+Qed.
+
 Lemma init_linv g0 : good g0 -> linv g0 (mkSt g0 [] [] [] []) (map t_id (g_roots g0)).
 Proof.
   intro G0. exists []. simpl. split; [|split].
@@ -52,11 +61,7 @@ Proof.
     + constructor.
     + constructor.
   - exists (g_roots g0). split; [|split].
-    + assert (H : forall t, In t (g_roots g0) -> find_f (t_id t) (g_roots g0) = Some t).
-      { intros t Ht. apply find_f_root; [apply (gd_nd g0 G0) | exact Ht]. }
-      induction (g_roots g0) as [|t r IH] at 1 4; simpl; constructor.
-      * split; apply H; left; reflexivity.
-      * apply IH. intros; apply H; right; assumption.
+    + apply init_queue. intros t Ht. split; apply find_f_root; try exact Ht; apply (gd_nd g0 G0).
     + apply (gd_nd g0 G0).
     + intros c [].
   - apply (gd_near g0 G0).
@@ -64,7 +69,7 @@ Qed.
 
 Lemma nonlife_xs g0 xs : Forall (x_ok g0) xs -> nonlife (map x_e xs) = map x_e xs.
 Proof.
-  induction 1 as [|x r [L _] _ IH]; simpl; [reflexivity|]. rewrite L. simpl. unfold nonlife in IH. rewrite IH. reflexivity.
+  induction 1 as [|x r [L _] _ IH]; simpl; [reflexivity|]. rewrite L. simpl. f_equal. exact IH.
 Qed.
 
 Section Main.
@@ -99,18 +104,18 @@ Section Main.
     destruct I3 as [J1 J2 [R [HF HP]] J4 J5 J6 J7 J8 J9 J10].
     apply fillF_nil in HF. subst R. unfold near_roots, ext_objs, near_objs, ext_edges, near_edges in *. simpl in *.
     rewrite app_nil_r in HP, J4.
-    destruct (s_x s) as [|x0 xr] eqn:EX; simpl.
+    destruct (s_x s) as [|x0 xr] eqn:EX; cbn [is_nil].
     - intro E. inversion E; subst. simpl in J8. rewrite app_nil_r in J8.
       apply restore_same; try assumption; symmetry; assumption.
     - (* cross-diagram edges *)
+      assert (I3 : inv g0 g3 [] (x0 :: xr) [] []).
+      { constructor; unfold near_roots, ext_objs, near_objs, ext_edges, near_edges; simpl; rewrite ?app_nil_r; try assumption.
+        exists (g_roots g3). split; [apply fillF_refl; intros d [] | rewrite app_nil_r; exact HP]. }
       assert (Hrl : relink (idmap g2 ++ idmap g3) (x0 :: xr) = Some (map x_e (x0 :: xr))).
-      { apply relink_ok. intros x Hx. rewrite Forall_forall in J9. destruct (J9 x Hx) as [L [E1 E2]].
+      { apply relink_ok. intros x Hx. pose proof J9 as J9'. rewrite Forall_forall in J9'. destruct (J9' x Hx) as [L [E1 E2]].
         assert (He : In (x_e x) (nonlife (g_edges g0))).
         { eapply Permutation_in; [exact J8 | apply in_app_iff; right; apply in_map; exact Hx]. }
         destruct (gd_ends g0 G0 _ He) as [Hs Hd].
-        assert (I3 : inv g0 g3 [] (x0 :: xr) [] []).
-        { constructor; simpl; try assumption. exists (g_roots g3). split; [constructor|].
-          unfold near_roots. simpl. rewrite app_nil_r. exact HP. }
         assert (Ho : forall i, In i (g_objs g0) -> In i (g_objs g3)).
         { intros i Hi. eapply Permutation_in; [symmetry; exact J4 | exact Hi]. }
         rewrite E1, E2, !lookup_app.
@@ -119,7 +124,7 @@ Section Main.
       apply restore_same; try assumption; simpl.
       + symmetry. exact HP.
       + symmetry. exact J4.
-      + rewrite nonlife_app. change (map x_e (x0 :: xr)) with (x_e x0 :: map x_e xr) in J8.
+      + rewrite nonlife_app. change (x_e x0 :: map x_e xr) with (map x_e (x0 :: xr)).
         rewrite (nonlife_xs g0 (x0 :: xr) J9). symmetry. exact J8.
   Qed.
 
